@@ -212,9 +212,10 @@ def GObj.edit (o : GObj) : GEdit → Outcome (Int × GObj)
   | .detail d =>
     -- libwifi_add_action_detail: (re)allocate detail_length + data_len bytes, append, 8-bit length
     if d.length = 0 then .ok (o.detailLen, o)
+    else if d.length > 255 - o.detailLen then .ok (-EINVAL, o)      -- the 8-bit length could not describe it
     else
       let buf := (o.detail.take o.detailLen) ++ d
-      let nl := (o.detailLen + d.length) % 256
+      let nl := o.detailLen + d.length
       .ok (nl, { o with detail := buf, detailLen := nl })
   | .freeDetail =>
     -- libwifi_free_action_detail: the details are gone and the object is as freshly created
